@@ -149,3 +149,10 @@ package gcrypto
 //@   establishes pbits(result) == bsbits(unbox(result, SimpleCommonMessageSignatureProof).bitset)
 //@   ensures independent-bitset: fresh(unbox(result, SimpleCommonMessageSignatureProof).bitset) && fresh(unbox(result, SimpleCommonMessageSignatureProof).sigs)
 //@   modifies nothing
+
+// A new proof is empty, over exactly the given message, keys and key hash, and distinct from every existing proof.
+//@ iface CommonMessageSignatureProofScheme.New(sch, msg, candidateKeys, pubKeyHash)
+//@   ensures result1 == nil ==> result0 != nil && fresh(ref(result0)) && pmsg(result0) == bytes(msg) && pkeys(result0) == candidateKeys && pkhash(result0) == pubKeyHash &&
+//@       (forall i mathint :: {pbits(result0)[i]} !pbits(result0)[i])
+//@   modifies nothing
+
